@@ -152,9 +152,11 @@ func (s *state) walk(node ast.Node) {
 			break
 		}
 		var (
-			keyVar  = node.Var
-			keyInd  = node.Var + "__index"
-			keyLast = node.Var + "__lastIndex"
+			keyVar = node.Var
+			// "." cannot occur in a variable name: the loop's bookkeeping
+			// hides no variable of the template.
+			keyInd  = node.Var + loopIndexSuffix
+			keyLast = node.Var + loopLastIndexSuffix
 		)
 		for i, item := range list {
 			// each iteration is a block of its own.
